@@ -18,8 +18,8 @@ R2.4  stream_encode_multipart / encode_multipart / _iter_data: one part per valu
       value's own bytes, every encoder chunk written unmodified and in order.
 R2.5  urlencoded writer and readers agree (_urlencode, iter_multi_items, both parse_qsl calls).
 R2.6  wiring: EnvironBuilder.get_environ and FormDataParser hand boundary, length, body and query
-      string through unchanged; EnvironBuilder data intake and FileMultiDict.add_file keep what the
-      caller gave.
+      string through unchanged; EnvironBuilder data intake, FileMultiDict.add_file and
+      FileStorage.__init__ keep what the caller gave.
 R2.7  the Content-Disposition line the encoder writes is read back by parse_options_header as
       exactly {name, filename}, on a finite family of values built from the reader's own delimiters.
 """
@@ -46,7 +46,9 @@ LEVEL_TEXT = (
     "the event's filename, name and headers; only RequestEntityTooLarge may be raised; (R2.2) in state PART MultipartDecoder.next_event emits "
     "Field/File whose name and filename are the `name` / `filename` entries of parse_options_header(headers['content-disposition']) themselves, "
     "File exactly when the filename entry is present (is-None / membership test, not truthiness), headers = the parsed block, and header values "
-    "are computed from the buffer by splitting (into lines while still bytes), utf-8 decoding and whitespace stripping only; (R2.3) with a sample boundary folded into both "
+    "are computed from the buffer by splitting (into lines while still bytes), utf-8 decoding and whitespace stripping only, and - evaluated on a constant header block "
+    "of `Name: value` lines whose values contain no, one and several further colons (a name `dc:title`, a filename `C:...`, a URL, a leading and a trailing colon, an empty value) - "
+    "every line comes out as (Name, value) cut at its FIRST colon only, without raising (a line without any colon is never written by the encoder and is not judged); (R2.3) with a sample boundary folded into both "
     "sides, what send_event writes for File/Field/Data/Epilogue is consumed by the decoder's own patterns: the part and the closing delimiter "
     "by every boundary pattern (non-final / final group), header lines end in a line break, contain no empty line, carry name (and filename "
     "for File only) verbatim in utf-8 and the event's other headers, header end + first-chunk prefix is exactly one match of the blank-line "
@@ -66,7 +68,10 @@ LEVEL_TEXT = (
     "set as content type and there are no files; EnvironBuilder(data=mapping) stores every text value in the form per key in order and hands "
     "every file value (tuples complete, several uploads under one name) to files.add_file; FileMultiDict.add_file stores a FileStorage built "
     "from the caller's stream, field name, filename and, when one is given, content type (a guessed type never replaces an explicit one) and "
-    "stores a FileStorage value as it is; FormDataParser.parse hands the encoded boundary "
+    "stores a FileStorage value as it is; FileStorage.__init__, interpreted as MultiPartParser.parse and add_file call it (stream, a filename that is not None, field name, "
+    "headers or content type), holds on every path that very stream, field name and headers object (a given content type as its only Content-Type entry) and the given "
+    "filename itself, passed through os.fsdecode / os.fspath / str only - whatever its text, so the discard of names like `<stderr>` can only apply to a name taken "
+    "from the stream's `name` attribute when no filename is given (that case itself is not judged); FormDataParser.parse hands the encoded boundary "
     "option to the decoder and returns (stream, form, files) in that order, and routes urlencoded bodies to the urlencoded reader; (R2.7) the "
     "Content-Disposition line send_event writes for File(name=N, filename=F), with N and F taken in turn from a finite family - every "
     "punctuation character that occurs as a constant in parse_options_header or in the module-level patterns it uses placed inside, in front "
@@ -76,12 +81,13 @@ LEVEL_TEXT = (
     "R2.1-R2.6 on all paths of the interpreted scenarios and R2.7 for the members of the family only (a finite sample of the domain, not all N, F). It does NOT decide the round-trip equality itself: that the decoder's state "
     "machine inverts the encoder on payload bytes next to delimiters and across chunk boundaries (C01 decides its chunking clauses, e.g. the "
     "search-offset typestate R1.2; the core is undecided there too), what parse_options_header does with values outside the R2.7 family (its unquoting chain is also decided under C06-R6.2), what "
-    "Headers, FileStorage.__init__, urlencode/parse_qsl and the codecs do with special characters, size-limit accounting (C10), the declared-charset branch of "
+    "Headers, urlencode/parse_qsl and the codecs do with special characters, what FileStorage.__init__ does when no filename is given (name taken from the stream),  size-limit accounting (C10), the declared-charset branch of "
     "get_part_charset, Request.form/files plumbing above FormDataParser.parse, and how a caller splits a part into Data events (an empty first "
     "Data event followed by payload is noted, not checked)."
 )
 TRUSTED = [
     "CPython ast and re (patterns folded from the source are run on delimiters folded from the source)",
+    "os.fsdecode / os.fspath / str return a str argument unchanged",
     "the interpreter in wzsa/rules/_c02_helpers.py models python semantics for the subset the analysed functions use; anything outside it is ANALYSIS-ERROR",
     "urllib.parse.urlencode / parse_qsl, io.BytesIO, tempfile.TemporaryFile behave as documented for CPython 3.12",
     "urllib.parse.unquote / quote are called on constants when the interpreted source calls them on constants (same footing as re on folded constants)",
@@ -309,12 +315,12 @@ def run(ctx: Ctx) -> None:
 
 RULES = {
     "R2.1": "MultiPartParser.parse: every Data payload reaches its part's container unmodified and in order; a field's value is the joined container decoded with the part charset (utf-8 when none is declared); a file's FileStorage gets the rewound container and the event's own name, filename and headers; fields and files keep arrival order and go to self.cls as they are",
-    "R2.2": "MultipartDecoder.next_event: name and filename of the emitted Field/File are the `name` / `filename` parameters of parse_options_header(Content-Disposition) themselves, headers is the parsed header block, File iff a filename parameter is present; header values are carried without transformation other than whitespace stripping",
+    "R2.2": "MultipartDecoder.next_event: name and filename of the emitted Field/File are the `name` / `filename` parameters of parse_options_header(Content-Disposition) themselves, headers is the parsed header block, File iff a filename parameter is present; header values are carried without transformation other than whitespace stripping, each `Name: value` line being cut at its first colon only",
     "R2.3": "framing: each delimiter MultipartEncoder.send_event writes is consumed by every boundary pattern of the decoder (part vs. final form), header lines end in a line break and carry the name/filename parameters verbatim, the first payload chunk is prefixed with exactly one line break and the decoder removes exactly one by an anchored match, later chunks are written as they are, a part may be the first event, and the pattern that ends a payload rejects near-copies of the delimiter",
     "R2.4": "test client: stream_encode_multipart sends Preamble, then for every (key, value) of the data in order a Field/File event carrying key (and filename, content type) followed by Data events whose payloads concatenate to the value's own bytes (text encoded with the parser's fallback charset), then Epilogue; every chunk send_event returns is written unmodified and in order; the stream is rewound and its length reported; repeated keys are kept",
     "R2.5": "urlencoded: _urlencode drops only None values, keeps order and repeated keys (iter_multi_items), its safe set has no structural character; both readers call parse_qsl on the whole decoded text with keep_blank_values=True, default separator/limits/UTF-8, and hand the list unmodified to the multi-dict class",
     "R2.7": "Content-Disposition reader: for the header line MultipartEncoder.send_event writes for a File (name=N, filename=F), parse_options_header returns exactly ('form-data', {name: N, filename: F}) for every N, F of a finite family that places each delimiter character found as a constant in parse_options_header (and parameter look-alikes, percent escapes, blanks, non-ASCII, upper case) inside the quoted value",
-    "R2.6": "wiring: EnvironBuilder.get_environ passes the stream, length and boundary of stream_encode_multipart (form and files) / the _urlencode'd form / the _urlencode'd args into wsgi.input, CONTENT_LENGTH, CONTENT_TYPE and QUERY_STRING; EnvironBuilder(data=...) stores text values in the form and hands file values complete to files.add_file; FileMultiDict.add_file keeps an explicit filename and content type; FormDataParser hands the boundary option to the decoder and returns form and files in that order",
+    "R2.6": "wiring: EnvironBuilder.get_environ passes the stream, length and boundary of stream_encode_multipart (form and files) / the _urlencode'd form / the _urlencode'd args into wsgi.input, CONTENT_LENGTH, CONTENT_TYPE and QUERY_STRING; EnvironBuilder(data=...) stores text values in the form and hands file values complete to files.add_file; FileMultiDict.add_file keeps an explicit filename and content type; FileStorage.__init__ keeps the given stream, filename (any text), name and headers; FormDataParser hands the boundary option to the decoder and returns form and files in that order",
 }
 
 
@@ -599,7 +605,15 @@ HEADER_VALUE_OPS = {
     # whitespace stripping, decoding, splitting name from value, iterating lines, the slice of the buffer, folding of continuation lines
     ".strip", ".lstrip", ".rstrip", "dec", ".partition", ".split", "[]", "elem", ".splitlines", ".sub", "slice", "bytes", ".start", ".search", ".end", ".match",
     "binop:FloorDiv", "binop:Add", "binop:Sub", "list", "str",
+    # the position of the first separator (what is cut there is judged on a constant header block, _header_line_split), decoding of a piece whose
+    # type the interpreter does not know (the charset is checked below)
+    ".index", ".find", ".decode",
 }
+
+
+def _decode_charset(d: T) -> t.Any:
+    """charset of a `.decode(...)` method term"""
+    return H.norm_charset(dict(d.kw).get("encoding", d.args[1] if len(d.args) > 1 else "utf-8"))
 
 
 def rule_2_2(ctx: Ctx, repo: Repo, folder: Folder) -> None:
@@ -692,6 +706,9 @@ def rule_2_2(ctx: Ctx, repo: Repo, folder: Folder) -> None:
             elif any(d.args[1] != "utf-8" for d in _find_ops(hdr, "dec")):
                 d = [d for d in _find_ops(hdr, "dec") if d.args[1] != "utf-8"][0]
                 c_val.fail(f"header lines are decoded as {d.args[1]!r}; the encoder writes names and filenames in utf-8", d, o)
+            elif any(_decode_charset(d) != "utf-8" for d in _find_ops(hdr, ".decode")):
+                d = [d for d in _find_ops(hdr, ".decode") if _decode_charset(d) != "utf-8"][0]
+                c_val.fail(f"header lines are decoded as {_decode_charset(d)!r}; the encoder writes names and filenames in utf-8", d, o)
             else:
                 c_val.ok("header lines: split, decoded, name/value separated, stripped")
         else:
@@ -702,6 +719,104 @@ def rule_2_2(ctx: Ctx, repo: Repo, folder: Folder) -> None:
         raise AnalysisError("R2.2: no path of the header parser produced a header line (shape not understood)")
     for c in (c_name, c_fn, c_hdr, c_val):
         c.done()
+    _header_line_split(ctx, repo, folder, fi)
+
+
+# header lines as the encoder writes them (`Name: value`), with 1 and with several colons: the value of a Content-Disposition
+# line holds the field name and the filename, which may contain colons (`dc:title`, `C:notes.txt`), a Content-Type may
+# carry parameters with colons.  A line without any colon is never written by the encoder and is not judged.
+HEADER_SAMPLE_LINES = [
+    ("Content-Disposition", 'form-data; name="dc:title"; filename="C:n\u00f6tes: v2.txt"'),
+    ("Content-Type", "text/plain; charset=utf-8"),
+    ("X-Stamp", "10:20:30"),
+    ("X-Lead", ":a"),
+    ("X-Trail", "a:"),
+    ("X-Url", "http://example.org:8080/a?b=c"),
+    ("X-Empty", ""),
+]
+
+
+def _pairs_of_term(v: t.Any) -> list[tuple[t.Any, t.Any]] | None:
+    """a constructor argument that is a list / tuple of pairs or a dict -> the pairs"""
+    if isinstance(v, T) and v.op in ("list", "tuple"):
+        v = v.args
+    if isinstance(v, T) and v.op == "dict":
+        return [(k, x) for k, x in v.args]
+    if isinstance(v, dict):
+        return list(v.items())
+    if isinstance(v, (list, tuple)) and all(isinstance(x, (tuple, list)) and len(x) == 2 for x in v):
+        return [(x[0], x[1]) for x in v]
+    return None
+
+
+def _header_pairs(hdr: t.Any, o: Outcome) -> list[tuple[t.Any, t.Any]] | None:
+    """the (name, value) pairs an emitted Headers object holds: what its constructor was given, followed by what the path
+    added to it afterwards (add / set / item assignment / extend / update)"""
+    if not (isinstance(hdr, T) and hdr.op.endswith(".Headers")):
+        return None
+    pairs: list[tuple[t.Any, t.Any]] = []
+    given = [*hdr.args, *[x for _, x in hdr.kw]]
+    for a in given:
+        got = _pairs_of_term(a)
+        if got is None:
+            return None
+        pairs += got
+    for eff in o.effects:
+        target, meth, args = eff[0], eff[1], eff[2]
+        if not (isinstance(target, T) and target.uid is not None and target.uid == hdr.uid):
+            continue
+        if meth in ("add", "set", "__setitem__", "add_header") and len(args) == 2 and not eff[3]:
+            pairs.append((args[0], args[1]))
+        elif meth in ("extend", "update") and len(args) == 1 and _pairs_of_term(freeze(args[0])) is not None:
+            pairs += _pairs_of_term(freeze(args[0]))  # type: ignore[operator]
+        elif meth in ("get", "__getitem__", "__contains__", "getlist", "keys", "items", "values", "__iter__", "__len__", "get_all"):
+            continue
+        else:
+            return None
+    return pairs
+
+
+def _header_line_split(ctx: Ctx, repo: Repo, folder: Folder, fi: FuncInfo) -> None:
+    """state PART on a constant header block: every line `Name: value` comes out as (Name, value) with the value being
+    everything after the FIRST colon"""
+    c = Check(ctx, "R2.2", fi, "a header line `Name: value` is separated at its first colon only: the value keeps every later colon (names and filenames such as `dc:title`, `C:notes.txt` travel inside the Content-Disposition value)", "_parse_headers: name/value separation")
+    block = b"".join(f"{n}: {v}\r\n".encode("utf-8") for n, v in HEADER_SAMPLE_LINES) + b"\r\nPAYLOAD"
+    want = [(n, v) for n, v in HEADER_SAMPLE_LINES]
+    ip = Interp(repo, folder, open_modules={MP})
+
+    def thunk(ip_: Interp) -> t.Any:
+        s = _decoder_self(ip_, repo, "PART")
+        s.attrs["buffer"] = bytearray(block)
+        return ip_.call(ip_.getattr(s, "next_event"), [], {})
+
+    outs = ip.explore(thunk)
+    evs = [o for o in outs if o.kind == "return" and isinstance(o.value, Obj) and o.value.ci.name in ("Field", "File") and o.value.ci.module.name == MP]
+    if not evs:
+        rs = [o for o in outs if o.kind == "raise"]
+        if rs:
+            o = rs[0]
+            c.fail(f"the header block {block[:-9]!r} (lines as the encoder writes them, values with one and with several colons) makes the decoder raise {fmt(o.value)} instead of emitting the part", T("raise", (), src=o.where) if o.where else None, o)
+            c.done()
+            return
+        raise AnalysisError("R2.2: state PART on a constant header block neither emits a part nor raises (shape not understood)")
+    n = 0
+    for o in evs:
+        pairs = _header_pairs(o.value.attrs.get("headers"), o)
+        if pairs is None or any(H._has_term(x) for kv in pairs for x in kv):
+            raise AnalysisError(f"R2.2: headers of the part emitted for a constant header block are `{fmt(o.value.attrs.get('headers'), 3)}`: not a Headers object built from constant (name, value) pairs (shape not understood)")
+        n += 1
+        got = [(k, v) for k, v in pairs]
+        if got == want:
+            c.ok(f"{len(want)} lines (values with 0, 1 and several colons after the separator) -> (name, value) at the first colon")
+            continue
+        diff = next(((w, g) for w, g in zip(want, got) if w != g), None)
+        if diff is not None:
+            (wn, wv), (gn, gv) = diff
+            c.fail(f"the line `{wn}: {wv}` is parsed as ({gn!r}, {gv!r}), expected ({wn!r}, {wv!r})", None, o)
+        else:
+            c.fail(f"{len(want)} header lines give {len(got)} headers: {got!r}", None, o)
+    ctx.floor("R2.2", "paths that emit a part for the constant header block", n, 1)
+    c.done()
 
 
 def _assumed_in(o: Outcome, key: str, container: T) -> bool | None:
@@ -1905,6 +2020,109 @@ def _add_file_clause(ctx: Ctx, repo: Repo, folder: Folder) -> None:
     c.done()
 
 
+IDENTITY_ON_STR = {"os.fsdecode", "os.fspath", "str"}  # trusted: each returns a str argument as it is
+
+
+def _through_identity(v: t.Any) -> t.Any:
+    """v with calls that return a str argument unchanged (os.fsdecode / os.fspath / str) peeled off"""
+    while isinstance(v, T) and v.op in IDENTITY_ON_STR and len(v.args) + len(v.kw) == 1:
+        v = v.args[0] if v.args else v.kw[0][1]
+    return v
+
+
+def _peel_identity(v: t.Any) -> t.Any:
+    """the term with every identity-on-str call inside it peeled off"""
+    v = _through_identity(v)
+    if isinstance(v, T):
+        return T(v.op, tuple(_peel_identity(a) for a in v.args), tuple((k, _peel_identity(x)) for k, x in v.kw), uid=v.uid, pytype=v.pytype, src=v.src)
+    if isinstance(v, tuple):
+        return tuple(_peel_identity(a) for a in v)
+    return v
+
+
+def _file_storage_clause(ctx: Ctx, repo: Repo, folder: Folder) -> None:
+    """FileStorage.__init__, the last hop on both sides (MultiPartParser.parse builds the uploaded file with it, add_file
+    the file to encode): what is given explicitly - stream, filename, field name, headers / content type - is what the
+    object holds.  In particular the discard of names like `<stderr>` is for names taken from the stream's `name`
+    attribute, never for a filename the caller (the client) gave."""
+    ci = cls_of(repo, f"{FSMOD}.FileStorage")
+    _, init = repo.lookup(ci, "__init__")
+    if not isinstance(init, FuncInfo) or init.module.name != FSMOD:
+        raise AnalysisError("R2.6: FileStorage.__init__ is not defined in datastructures.file_storage (slot)")
+    ctx.saw(init)
+    c_fn = Check(ctx, "R2.6", init, "FileStorage.__init__ stores an explicitly given filename as it is (any text, also empty or of the form `<...>`), on every path", "FileStorage.__init__: explicit filename kept")
+    c_rest = Check(ctx, "R2.6", init, "FileStorage.__init__ stores the given stream, field name and headers themselves; a given content type is stored as the Content-Type header", "FileStorage.__init__: stream, name, headers kept")
+    n = 0
+    for shape in ("parser", "builder"):
+        hold: dict[str, t.Any] = {}
+
+        def thunk(ip_: Interp, shape=shape, hold=hold) -> t.Any:
+            stream = Scripted("UPLOAD", truthy=True)
+            stream.strict = True  # type: ignore[attr-defined]
+            fn, name, ct = sym("FN", "str", None), sym("NAME", "str", None), sym("CT", "str", None)
+            hdrs = scripted_headers("HDRS", {})
+            hold.update(stream=stream, fn=fn, name=name, ct=ct, hdrs=hdrs)
+            if shape == "parser":
+                # MultiPartParser.parse: FileStorage(container, filename, name, headers=headers)
+                return ip_.instantiate(ci, [stream, fn, name], {"headers": hdrs})
+            # FileMultiDict.add_file: FileStorage(file, filename, name, content_type)
+            return ip_.instantiate(ci, [stream, fn, name, ct], {})
+
+        ip = Interp(repo, folder, open_modules={FSMOD})
+        snaps: list = []
+
+        def wrapped(ip_: Interp, thunk=thunk, hold=hold, snaps=snaps) -> t.Any:
+            try:
+                return thunk(ip_)
+            finally:
+                snaps.append(dict(hold))
+
+        outs = ip.explore(wrapped)
+        for o, hh in zip(outs, snaps):
+            if o.kind == "raise":
+                c_rest.fail(f"{shape}: FileStorage(stream, filename, name, ...) raises {fmt(o.value)}", T("raise", (), src=o.where) if o.where else None, o)
+                continue
+            if not isinstance(o.value, Obj):
+                raise AnalysisError(f"R2.6: FileStorage(...) evaluates to `{fmt(o.value)}` (shape not understood)")
+            n += 1
+            at = o.value.attrs
+            got = at.get("filename")
+            if _through_identity(got) == hh["fn"] and isinstance(_through_identity(got), T):
+                c_fn.ok("filename = the given filename (through os.fsdecode only)")
+            elif got is None:
+                c_fn.fail(f"{shape}: an explicitly given filename is dropped (filename = None): such an upload comes back without its filename, and on the encoding side goes out as a plain field", None, o)
+            else:
+                # os.fsdecode & co. are named by this clause, so they are not "unknown functions outside the package" here
+                c_fn.fail(f"{shape}: an explicitly given filename FN is stored as `{fmt(got)}`", alt(first_impure(_peel_identity(got), set()), None), o)
+            if at.get("stream") is not hh["stream"]:
+                c_rest.fail(f"{shape}: the given stream is stored as `{fmt(at.get('stream'))}`", at.get("stream") if isinstance(at.get("stream"), T) else None, o)
+            elif not (isinstance(at.get("name"), T) and at.get("name") == hh["name"]):
+                c_rest.fail(f"{shape}: the given field name is stored as `{fmt(at.get('name'))}`", at.get("name") if isinstance(at.get("name"), T) else None, o)
+            elif shape == "parser":
+                h = at.get("headers")
+                copy_of = isinstance(h, T) and h.op.endswith(".Headers") and [*h.args, *[x for _, x in h.kw]] == [hh["hdrs"]]
+                log = [e for e in getattr(hh["hdrs"], "log", []) if e and e[0] == "set"]
+                if not (h is hh["hdrs"] or copy_of):
+                    c_rest.fail(f"parser: the given headers are stored as `{fmt(h, 2)}`", h if isinstance(h, T) else None, o)
+                elif log:
+                    c_rest.fail(f"parser: the given headers are changed although no content type / length is given: {fmt(log)}", None, o)
+                else:
+                    c_rest.ok("parser: stream, name, headers as given")
+            else:
+                h = at.get("headers")
+                pairs = _header_pairs(h, o) if isinstance(h, T) else None
+                if pairs is None:
+                    raise AnalysisError(f"R2.6: FileStorage(stream, filename, name, content_type).headers is `{fmt(h, 2)}`: not a Headers object whose entries can be read off the path (shape not understood)")
+                ctp = [(k, v) for k, v in pairs if isinstance(k, str) and k.lower() == "content-type"]
+                if len(ctp) == 1 and isinstance(ctp[0][1], T) and ctp[0][1] == hh["ct"] and len(pairs) == 1:
+                    c_rest.ok("builder: stream, name as given, Content-Type = the given content type")
+                else:
+                    c_rest.fail(f"builder: the headers hold {fmt(pairs)}, expected exactly Content-Type = the given content type", None, o)
+    ctx.floor("R2.6", "returning paths of the FileStorage scenarios", n, 2)
+    c_fn.done()
+    c_rest.done()
+
+
 def rule_2_6(ctx: Ctx, repo: Repo, folder: Folder) -> None:
     fg = repo.func(f"{TEST}.EnvironBuilder.get_environ")
     ctx.saw(fg)
@@ -2031,6 +2249,7 @@ def rule_2_6(ctx: Ctx, repo: Repo, folder: Folder) -> None:
 
     _builder_intake(ctx, repo, folder)
     _add_file_clause(ctx, repo, folder)
+    _file_storage_clause(ctx, repo, folder)
 
     # ---- FormDataParser.parse dispatch
     fp = repo.func(f"{FP}.FormDataParser.parse")
